@@ -26,7 +26,7 @@ void
 mpq_clear (mpq_ptr m)
 {
   (*__gmp_free_func) (m->_mp_num._mp_d,
-		    m->_mp_num._mp_alloc * BYTES_PER_MP_LIMB);
+		    (size_t) m->_mp_num._mp_alloc * BYTES_PER_MP_LIMB);
   (*__gmp_free_func) (m->_mp_den._mp_d,
-		    m->_mp_den._mp_alloc * BYTES_PER_MP_LIMB);
+		    (size_t) m->_mp_den._mp_alloc * BYTES_PER_MP_LIMB);
 }
